@@ -210,11 +210,13 @@ Proof.
 Qed.
 
 (** The refutation: an active endpoint whose peer announces a segment MRU of 0
-    sends START segments for ever, also after its SESS_TERM. *)
+    sends START segments for ever, also after its SESS_TERM (the second bundle
+    is queued BEFORE terminate(): its pending queue run fires afterwards; once
+    terminating, send_bundle_data is refused). *)
 Definition refute_cfg : cfg := mkCfg false [100] 30 60 1000 500 None.
 Definition refute_ops : list op :=
   [OStart; ORx (encode_frame (FContact (mkContact MAGIC 4 0)));
-   ORx (encode_frame (FMsg (MSessInit 30 0 1000 [100] []))); OSend [1;2;3]; OPQ; OTerm 0; OSend [4]; OPQ].
+   ORx (encode_frame (FMsg (MSessInit 30 0 1000 [100] []))); OSend [1;2;3]; OPQ; OSend [4]; OTerm 0; OPQ].
 
 Theorem no_start_after_term_refuted :
   exists c ops pre fl r post, sent (run c ops) = pre ++ FMsg (MSessTerm fl r) :: post
